@@ -381,7 +381,7 @@ fn run_dispatch_with(r: &mut Recorded, world: &World, opts: &ExecOpts, forced: O
             }
         }
     };
-    let borrowpanic = msg.contains("already borrowed") || msg.contains("already mutably borrowed");
+    let borrowpanic = msg.contains("already borrowed") || msg.contains("already mutably borrowed") || msg.contains("already immutably borrowed");
     ctx.ev(json!({"ev":"end","d":r.top,"res":resk,"who":who,"msg":msg,"borrowpanic":borrowpanic,"rid":rid,"val":val,"free":free}));
     let mut evs = ctx.take_log();
     r.rec.events.append(&mut evs);
